@@ -149,3 +149,59 @@ pub struct C02Wall {
 pub fn c02_convert(names: &[String], id_maps: &IdMaps) -> Vec<C02Wall> {
     names.iter().map(|n| C02Wall { space: id_maps.space_id(n).unwrap_or_default() }).collect()
 }
+
+// ---- C03: a geometry copy with width and height swapped
+pub struct C03Src {
+    pub width: f32,
+    pub height: f32,
+    pub setback: f32,
+}
+pub struct C03Geom {
+    pub width: f32,
+    pub height: f32,
+    pub setback: f32,
+}
+pub fn c03_convert(win: &C03Src) -> C03Geom {
+    C03Geom { width: win.height, height: win.width, setback: win.setback }
+}
+
+// ---- C18: a parent table that forgets to hang WINDOW blocks from the current wall
+#[derive(Clone, Copy)]
+pub enum C18Type {
+    Floor,
+    Space,
+    Wall,
+    Window,
+    Other,
+}
+pub struct C18Block {
+    pub name: String,
+    pub btype: C18Type,
+    pub parent: Option<String>,
+}
+pub fn c18_build(mut blocks: Vec<C18Block>) -> Vec<C18Block> {
+    let mut currentfloor = String::new();
+    let mut currentspace = String::new();
+    let mut currentwall = String::new();
+    for bdlblock in blocks.iter_mut() {
+        let parent = match bdlblock.btype {
+            C18Type::Floor => {
+                currentfloor = bdlblock.name.clone();
+                None
+            }
+            C18Type::Space => {
+                currentspace = bdlblock.name.clone();
+                Some(currentfloor.clone())
+            }
+            C18Type::Wall => {
+                currentwall = bdlblock.name.clone();
+                Some(currentspace.clone())
+            }
+            C18Type::Window => Some(currentspace.clone()),
+            _ => None,
+        };
+        bdlblock.parent = parent;
+    }
+    let _ = &currentwall;
+    blocks
+}
